@@ -160,6 +160,9 @@ func rulePodExist(c *Ctx, rule string) {
 	alts := append([]string{errVar + " != nil"}, notFound...)
 	_ = podVar
 	alts = append(alts, compTexts(fn, "NodeName", token.NEQ)...)
+	for _, eq := range compTexts(fn, "NodeName", token.EQL) {
+		alts = append(alts, "!("+eq+")")
+	}
 	c.ResultOnlyUnder(rule, "PodExist: false only for an error, NotFound or another node", fn, 0, false, alts)
 }
 
@@ -404,41 +407,42 @@ func ruleAnyFixedParks(c *Ctx, rule string) {
 		c.Unres(rule, "ReconcilePod.podDelete", "not found")
 		return
 	}
-	info := fn.Info()
 	n := 0
+	// the tests of the function that classify the allocations
+	var alts []string
+	var seen []string
+	bad := ""
+	ast.Inspect(fn.Decl.Body, func(k ast.Node) bool {
+		is, ok := k.(*ast.IfStmt)
+		if !ok {
+			return true
+		}
+		kind, why := quantOverFixed(p, fn, is.Cond, 0)
+		switch kind {
+		case "any":
+			alts = append(alts, exprString(is.Cond))
+			seen = append(seen, why)
+		case "none":
+			alts = append(alts, "!("+exprString(is.Cond)+")")
+			seen = append(seen, "negated: "+why)
+		case "all", "notall":
+			bad = "the test at " + p.Pos(is.Cond) + " is '" + kind + "' (" + why + ")"
+		}
+		return true
+	})
 	for _, ps := range phaseStores(c) {
 		if ps.st.Fn != fn || ps.to != "Detaching" {
 			continue
 		}
 		n++
-		kind, why, at := "", "no test on the allocations encloses the store", p.Pos(ps.st.Node)
-		for _, x := range pathTo(fn.Decl.Body, ps.st.Node) {
-			is, ok := x.(*ast.IfStmt)
-			if !ok || !(is.Body.Pos() <= ps.st.Node.Pos() && ps.st.Node.End() <= is.Body.End()) {
-				continue
-			}
-			// a test on the record's phase is not the classification
-			if be, ok := ast.Unparen(is.Cond).(*ast.BinaryExpr); ok && (be.Op == token.EQL || be.Op == token.NEQ) {
-				if sel, ok := ast.Unparen(be.X).(*ast.SelectorExpr); ok && sel.Sel.Name == "Phase" {
-					continue
-				}
-			}
-			k, w := quantOverFixed(p, fn, is.Cond, 0)
-			if k != "" || kind == "" {
-				kind, why, at = k, w, p.Pos(is.Cond)
-			}
-			if k != "" {
-				break
-			}
-		}
-		_ = info
-		switch kind {
-		case "any":
-			c.OK(rule, "podDelete: Detaching is chosen when any allocation is Fixed", at, fn.Key(), why)
-		case "":
-			c.Undec(rule, "podDelete: Detaching is chosen when any allocation is Fixed", at, fn.Key(), "an existential test over Spec.Allocations", "not recognised: "+why)
+		key := "podDelete: Detaching is chosen when any allocation is Fixed"
+		switch {
+		case bad != "":
+			c.Bad(rule, key, p.Pos(ps.st.Node), fn.Key(), "an existential test over Spec.Allocations", bad)
+		case len(alts) == 0:
+			c.Undec(rule, key, p.Pos(ps.st.Node), fn.Key(), "an existential test over Spec.Allocations", "no test of the function is recognised as a test on the Fixed allocations")
 		default:
-			c.Bad(rule, "podDelete: Detaching is chosen when any allocation is Fixed", at, fn.Key(), "an existential test over Spec.Allocations", "the test is '"+kind+"' ("+why+")")
+			c.RequireAnyOf(rule, key, fn, ps.st.Node, alts)
 		}
 	}
 	c.Floor(rule, "Detaching stores in podDelete", 1, n)
